@@ -37,6 +37,20 @@ OPS = ["FMAtomicSets", "FMAverageBranchingFactor", "FMCoreFeatures", "FMCountLea
        "FMVariationPoints"]
 
 
+ALT_ENTRY = {
+    "FMAtomicSets": [("method", "atomic_sets"), ("func", "fm_atomic_sets", "get_atomic_sets")],
+    "FMAverageBranchingFactor": [("method", "get_average_branching_factor"),
+                                 ("func", "fm_average_branching_factor", "average_branching_factor")],
+    "FMCoreFeatures": [("method", "get_core_features"), ("func", "fm_core_features", "get_core_features")],
+    "FMCountLeafs": [("method", "get_number_of_leafs"), ("func", "fm_count_leafs", "count_leaf_features")],
+    "FMEstimatedConfigurationsNumber": [("method", "get_configurations_number"),
+                                        ("func", "fm_estimated_configurations_number", "count_configurations")],
+    "FMLeafFeatures": [("func", "fm_leaf_features", "get_leaf_features")],
+    "FMMaxDepthTree": [("func", "fm_max_depth_tree", "max_depth_tree")],
+    "FMMetrics": [("method-with-model", "calculate_metamodel_metrics")],
+}
+
+
 def plan(tier, seed):
     return [{"shard": i, "nshards": NSHARDS, "pool": 6 if tier == "quick" else 12,
              "n_gra": 60 if tier == "quick" else 2000, "seeds": 20 if tier == "quick" else 50}
@@ -123,6 +137,32 @@ def execute(acc, name, op, model, payload, trace, hist):
     if foreign:
         acc.fail("readonly:" + name, "result-is-about-the-argument", name, [], "foreign-objects",
                  f"the result contains Feature objects that do not belong to the analysed model: {foreign[:5]}", payload)
+        good = False
+    # the other public entry points to the same analysis (getter of the operation object, module-level function,
+    # FMMetrics.calculate_metamodel_metrics called directly on this - reused - object) agree with execute().get_result()
+    import importlib
+    for kind, *ref in ALT_ENTRY.get(name, ()):
+        try:
+            if kind == "method":
+                alt = getattr(op, ref[0])()
+            elif kind == "method-with-model":
+                alt = getattr(op, ref[0])(model)
+            else:
+                alt = getattr(importlib.import_module("flamapy.metamodels.fm_metamodel.operations." + ref[0]), ref[1])(model)
+        except AttributeError:
+            acc.count("alternative-entry-point-absent:" + ".".join(ref))
+            continue
+        except Exception as e:  # noqa: BLE001
+            acc.fail("readonly:" + name, "no-exception", name + "." + ref[-1], [], f"raises:{type(e).__name__}", str(e)[:200], payload)
+            good = False
+            continue
+        acc.count("alternative-entry-point-compared:" + ref[-1])
+        if S.digest(val(alt)) != d:
+            acc.fail("readonly:" + name, "result-depends-only-on-argument", name + "." + ref[-1], [], "entry-points-disagree",
+                     f"{ref[-1]} gives another result than execute().get_result() for the same model (history {hist})", payload)
+            good = False
+    if S.snapshot(model) != after:
+        acc.fail("readonly:" + name, "model-unchanged", name, [], "mutated", "by an alternative entry point", payload)
         good = False
     # a result handed out earlier by this operation object is not changed by a later execution
     prev = getattr(op, "_vf_prev", None)
@@ -303,7 +343,8 @@ def rand_domain(r):
     kind = r.choice(["elements", "int-range", "float-range", "mixture", "several-ranges", "single-point",
                      "negative"])
     if kind == "elements":
-        return kind, [], r.choice([[1, 2, 3], ["a", "b"], [True, "x", 3, 2.5], ["only"], [0], [None, 1]])
+        return kind, [], r.choice([[1, 2, 3], ["a", "b"], [True, "x", 3, 2.5], ["only"], [0], [None, 1],
+                                   [[1, 2], [3]], [{"k": 1}, {"k": 2}], [[1, 2], "x", 3], [1, 1, 2], ["a", "a"], [1, True, 1.0]])
     if kind == "int-range":
         a = r.randint(-50, 50)
         return kind, [[a, a + r.randint(0, 100)]], []
@@ -312,7 +353,7 @@ def rand_domain(r):
         b = round(a + r.uniform(0.001, 20), r.randint(1, 3))
         return kind, [[a, max(a, b)]], []
     if kind == "mixture":
-        return kind, [[r.randint(0, 5), r.randint(5, 9)]], r.choice([["lo", "hi"], [100, 200]])
+        return kind, [[r.randint(0, 5), r.randint(5, 9)]], r.choice([["lo", "hi"], [100, 200], [[7, 8]], ["x", "x"]])
     if kind == "several-ranges":
         return kind, [[0, 3], [10, 13], [100.5, 101.25]], []
     if kind == "single-point":
